@@ -91,9 +91,24 @@ def client_suites(cs, kind=0):
     return out
 
 
-def server_acceptable(ss, version, auth=0):
+def group_intersect(ss, version, client_groups):
+    """(ecGroupIntersect, ffGroupIntersect) as _serverGetClientHello derives them from the hello's
+    supported_groups extension (None = no extension: both allowed)."""
+    from tlslite.tlsconnection import TLSConnection
+    from tlslite.utils.lists import getFirstMatching
+    if client_groups is None:
+        return True, True
+    v = ss.validate()
+    ec = bool(getFirstMatching(client_groups, TLSConnection._curveNamesToList(v, version)))
+    ff = getFirstMatching(client_groups, TLSConnection._groupNamesToList(v))
+    if not ff:
+        ff = not any(i for i in client_groups if i in range(256, 512))
+    return ec, bool(ff)
+
+
+def server_acceptable(ss, version, auth=0, client_groups=None):
     """Suites the server is willing to use for `version` with certificate / verifierDB(+certificate) /
-    anonymous credentials."""
+    anonymous credentials, given the groups the client advertised."""
     v = ss.validate()
     out = []
     if auth == 1:
@@ -103,11 +118,15 @@ def server_acceptable(ss, version, auth=0):
         out += CipherSuite.getAnonSuites(v, version)
         out += CipherSuite.getEcdhAnonSuites(v, version)
     else:
-        out += CipherSuite.getTLS13Suites(v, version)
-        out += CipherSuite.getEcdsaSuites(v, version)
-        out += CipherSuite.getEcdheCertSuites(v, version)
-        out += CipherSuite.getDheCertSuites(v, version)
-        out += CipherSuite.getDheDsaSuites(v, version)
+        ec, ff = group_intersect(ss, version, client_groups)
+        if ec or ff:
+            out += CipherSuite.getTLS13Suites(v, version)
+        if ec:
+            out += CipherSuite.getEcdsaSuites(v, version)
+            out += CipherSuite.getEcdheCertSuites(v, version)
+        if ff:
+            out += CipherSuite.getDheCertSuites(v, version)
+            out += CipherSuite.getDheDsaSuites(v, version)
         out += CipherSuite.getCertSuites(v, version)
     return CipherSuite.filterForVersion(out, minVersion=version, maxVersion=version)
 
@@ -225,6 +244,10 @@ class Live(object):
         p, c, s, raw_c, raw_s, cs, ss = self.handshake(ev, cfg, srv['cache'], sess)
         ch = first_handshake_msg(raw_c, ClientHello)
         sh = first_handshake_msg(raw_s, ServerHello)
+        if ch is not None:
+            # the acceptable list depends on the groups this very hello advertises
+            ge = ch.getExtension(ExtensionType.supported_groups)
+            ev['acc'] = server_acceptable(ss0, VER[v], cfg.get('auth', 0), None if ge is None else (ge.groups or []))
         conn = {'pair': p, 'srv': ev['srv'], 'obj': None, 'open': False, 'ver': v}
         self.conns.append(conn)
         rec = {'ci': ci, 'ver': v, 'offer': ev['offer'], 'offered_valid': offered_valid}
